@@ -306,7 +306,7 @@ def run(tier):
     # ---- 2. spec -> impl: every case of the program spaces on real threads, every serial order forced
     alive = True
     for name in emit:
-        if not replay_and_force(chk, out, name, 6 if thorough else 3, 1, stats):
+        if not replay_and_force(chk, out, name, 10 if thorough else 3, 1, stats):
             alive = False
             break
 
@@ -315,7 +315,7 @@ def run(tier):
     if alive:
         rdir = C.workdir("conc_rec_" + tier)
         if thorough:
-            rec = vh_json(["record", rdir, 400, 6, 8, 60, 12, 150])
+            rec = vh_json(["record", rdir, 600, 6, 8, 80, 12, 150])
         else:
             rec = vh_json(["record", rdir, 60, 5, 6, 8, 8, 100])
         for s in rec["samples"][:2]:
